@@ -175,7 +175,7 @@ func c13Gen(r *kit.Rng, id string) *req.Session {
 		s = schema.GenerateRich(r, "m", r.Range(25, 50), r.Range(2, 4))
 		o = model.GenOpts{Nasty: r.Chance(1, 2), MaxEntries: 3, Density: 70, KeyPool: 6}
 	} else {
-		sk = []string{"rmap", "nstruct", "nmap", "ctl", "rstruct"}[r.Intn(5)]
+		sk = []string{"rmap", "nstruct", "nmap", "ctl", "rstruct", "nacc"}[r.Intn(6)]
 		st, _ := store.New(sk)
 		caps := st.Caps()
 		caps.MaxNodes = r.Range(10, 25)
@@ -204,6 +204,31 @@ func c13Gen(r *kit.Rng, id string) *req.Session {
 		var rq req.Request
 		rq.Damage = "none"
 		hurt := r.Intn(100) < p
+		if s.Actions && r.Chance(1, 6) {
+			// a request aimed at an rpc: the body is the edit source of the rpc's input
+			// object (zznoin declares no input; a body may arrive all the same)
+			src := r.Pick([]string{"json", "json", "xml"})
+			rq.Kind = "action-" + src
+			rq.Path = r.Pick([]string{"zzact", "zzact", "zznoin"})
+			doc := r.Pick([]string{`{"aa":"x","ab":3}`, `{"aa":"y"}`, `{}`, `{"ab":7}`, ``})
+			if src == "xml" {
+				doc = r.Pick([]string{`<input><aa>x</aa><ab>3</ab></input>`, `<input><aa>y</aa></input>`, `<input/>`, ``})
+			}
+			rq.Doc = doc
+			if hurt && doc != "" {
+				switch r.Intn(3) {
+				case 0:
+					rq.Doc, rq.Damage, _ = damage(r, src, doc)
+				case 1:
+					rq.Doc = r.Pick([]string{`{"aa":{}}`, `{"aa":[1]}`, `{"ab":"x"}`, `{"zz":1}`, `[]`, `null`, `{"aa":null}`, `{"bar":"x"}`, `<input><aa><b/></aa></input>`, `<x><zz/></x>`})
+					rq.Damage = "shape-swap:rpc-input"
+				default:
+					rq.Damage = "none"
+				}
+			}
+			sess.Requests = append(sess.Requests, rq)
+			continue
+		}
 		switch r.Intn(10) {
 		case 0, 1, 2, 3: // edit with a body
 			src := r.Pick([]string{"json", "json", "xml"})
